@@ -184,7 +184,7 @@ func NewWorld(c Cfg) (*World, error) {
 		w.HTTP.Start()
 	}
 	w.SMTP = smtp.NewServer(conf.SMTP, w.Manager, w.Policy, w.Host)
-	w.POP3, err = pop3.NewServer(conf.POP3, w.Store)
+	w.POP3, err = pop3.NewServer(conf.POP3, w.Store, pop3.WithAddressPolicy(w.Policy)) // as FullAssembly does
 	if err != nil {
 		return nil, err
 	}
